@@ -232,6 +232,21 @@ def batch_sum(f):
     return f.sum()
 
 
+def batch_picky(f):
+    '''raises KeyError (the class the caller silences) for some Frames and ValueError (not silenced) for others'''
+    _nap(f.shape[0])
+    v = int(f.values[0, 1])
+    if v % 2 == 0 and v > 0:
+        raise KeyError(v)          # the class the caller silences
+    if v % 3 == 0 and v > 0:
+        raise ValueError(v)        # not silenced: must surface in both forms
+    return f.sum()
+
+
+def batch_picky_items(label, f):
+    return batch_picky(f)
+
+
 def batch_run(rng):
     k = rng.randint(1, 5)
     frames = [sf.Frame(np.arange(6).reshape(rng.choice([(2, 3), (3, 2)])) * (i + 1), columns=None, name='b%d' % i) for i in range(k)]
@@ -241,7 +256,9 @@ def batch_run(rng):
     w = rng.randint(1, 6)
     c = rng.randint(1, k + 1)
     threads = rng.random() < 0.6
-    op = rng.choice(['sum', 'apply', 'iloc', 'mul', 'apply_items'])
+    op = rng.choice(['sum', 'apply', 'iloc', 'mul', 'apply_items', 'apply_except', 'apply_except', 'apply_items_except'])
+    if 'except' in op:
+        c = 1          # the apply_except idioms refuse any other chunksize (NotImplementedError, by design)
 
     def run(batch):
         if op == 'sum':
@@ -250,17 +267,28 @@ def batch_run(rng):
             return batch.apply(batch_sum).to_frame()
         if op == 'apply_items':
             return batch.apply_items(_batch_items).to_frame()
+        if op == 'apply_except':
+            return batch.apply_except(batch_picky, KeyError).to_frame()
+        if op == 'apply_items_except':
+            return batch.apply_items_except(batch_picky_items, KeyError).to_frame()
         if op == 'iloc':
             return batch.iloc[0].to_frame()
         return (batch * 2).to_frame(axis=0) if False else (batch * 2).sum().to_frame()
     out = [{'kind': 'begin', 'n': k, 'w': w, 'c': c, 'fails': [], 'traced': False, 'iface': 'Batch.' + op, 'pool': 'threads' if threads else 'processes'}]
-    try:
-        seq = run(sf.Batch(iter(items)))
-        par = run(sf.Batch(iter(items), max_workers=w, chunksize=c, use_threads=threads))
+    def outcome_of(batch):
+        try:
+            return 'ok', run(batch)
+        except Exception as e:
+            return 'error:' + type(e).__name__, None
+    so, seq = outcome_of(sf.Batch(iter(items)))
+    po, par = outcome_of(sf.Batch(iter(items), max_workers=w, chunksize=c, use_threads=threads))
+    if so != po:
+        equal, outcome = False, 'ok'          # one form raised and the other did not (or another error): reported as a difference
+    elif so != 'ok':
+        equal, outcome = True, 'ok'           # both raise the same error: the failing task surfaces in both forms
+    else:
         equal = par.equals(seq, compare_dtype=True) and _labels(par) == _labels(seq)
         outcome = 'ok'
-    except Exception as e:
-        equal, outcome = False, 'error'
     out.append({'kind': 'end', 'outcome': outcome, 'equal': bool(equal), 'streamed': False})
     return out
 
